@@ -37,9 +37,10 @@ CONSTANT UseHeld   \* apply the scheduling assumption of "held" answers
 
 TraceLog == ndJsonDeserialize("svctrace.ndjson")
 
-VARIABLE l   \* index of the next event to consume
+VARIABLES l,   \* index of the next event to consume
+          wr   \* bytes the client has written to the service's stdin so far (sessions with "write" events)
 
-tvars == <<vars, l>>
+tvars == <<vars, l, wr>>
 
 Ev == TraceLog[l]
 IsEv(name) == l <= Len(TraceLog) /\ TraceLog[l].ev = name
@@ -65,7 +66,7 @@ PktIsNext(p, rq) ==
             /\ TraceLog[j].kind \in Kinds(rq[p.id].kind)
        ELSE /\ TraceLog[j].ev = "recv-request" /\ TraceLog[j].cmd = p.cmd /\ TraceLog[j].key = p.key
 
-TraceInit == Init /\ l = 1 /\ TLCSet(1, 1) /\ TLCSet(3, 1)
+TraceInit == Init /\ l = 1 /\ wr = 0 /\ TLCSet(1, 1) /\ TLCSet(3, 1)
 
 \* end of a session (of the packets of one key of a session): it has been
 \* matched, nothing more can be learnt from the other ways to match it.
@@ -74,7 +75,7 @@ TraceInit == Init /\ l = 1 /\ TLCSet(1, 1) /\ TLCSet(3, 1)
 TrEnd ==
   /\ IsEv("end") /\ Consume
   /\ TLCSet(3, l + 1)
-  /\ UNCHANGED vars
+  /\ UNCHANGED <<vars, wr>>
 
 \* a new session starts: re-install the initial state
 TraceReset ==
@@ -93,23 +94,48 @@ TraceReset ==
   /\ usedKeys' = {}
   /\ ncb' = 0
   /\ opAfterDispose' = FALSE
+  /\ wr' = 0
+
+\* Chunk level (pipelining sessions): the client cuts the byte stream of its
+\* packets into writes at arbitrary positions, {"ev":"write","from":a,"to":b}
+\* = the bytes a+1..b of the stream are written; the packet events of such a
+\* session carry the byte range of the packet ("from", "to") and are logged
+\* when the write that completes the packet is logged: a packet exists for
+\* the service only when every byte of it has been written.
+TrWrite ==
+  /\ IsEv("write") /\ Consume
+  /\ Ev.from = wr /\ Ev.to > Ev.from
+  /\ wr' = Ev.to
+  /\ UNCHANGED vars
+Complete(e) == ("to" \in DOMAIN e) => (e.from < e.to /\ e.to <= wr)
+PayOf(e) == IF "pay" \in DOMAIN e THEN e.pay ELSE 0
+\* the payload digests the client found the result of a response to be made of
+Obs(e) == IF "obs" \in DOMAIN e THEN {e.obs[x] : x \in DOMAIN e.obs} ELSE {}
+\* a response says what the handler computed from ITS OWN payload(s): a
+\* successful transform / one-shot build shows exactly the payloads the
+\* specification says it read, any other at most those
+ObsOK(e, r) ==
+  ("obs" \in DOMAIN e /\ r.cmd \in {"transform", "build"}) =>
+     IF e.kind = "ok" THEN Obs(e) = r.seen ELSE Obs(e) \subseteq r.seen
 
 TrSend ==
-  /\ IsEv("send") /\ Consume
-  /\ Send(Ev.id, Ev.cmd, Ev.key, Ev.ctx, Ev.plug, Ev.bad)
+  /\ IsEv("send") /\ Consume /\ UNCHANGED wr
+  /\ Complete(Ev)
+  /\ Send(Ev.id, Ev.cmd, Ev.key, Ev.ctx, Ev.plug, Ev.bad, PayOf(Ev))
 
 \* a response arrives: it is the packet the writer holds, it answers a
 \* request that is waiting for exactly this packet, and it says what the
 \* handler of that request computed
 TrRecvResponse ==
-  /\ IsEv("recv-response") /\ Consume
+  /\ IsEv("recv-response") /\ Consume /\ UNCHANGED wr
   /\ wbuf = RespPkt(Ev.id)
   /\ Ev.kind \in Kinds(req[Ev.id].kind)
+  /\ ObsOK(Ev, req[Ev.id])
   /\ WriterStep(0)
 
 \* a request of the service arrives
 TrRecvRequest ==
-  /\ IsEv("recv-request") /\ Consume
+  /\ IsEv("recv-request") /\ Consume /\ UNCHANGED wr
   /\ IF Ev.cmd = "ping"
        THEN Ping(Ev.id)
        ELSE /\ wbuf.t = "creq" /\ wbuf.cmd = Ev.cmd /\ wbuf.key = Ev.key
@@ -127,23 +153,24 @@ HeldOK(k) ==
   /\ ~\E r \in relays : r.key = k /\ r.st = "new"
 
 TrSendResponse ==
-  /\ IsEv("send-response") /\ Consume
-  /\ Answer(Ev.id, Ev.err)
+  /\ IsEv("send-response") /\ Consume /\ UNCHANGED wr
+  /\ Complete(Ev)
+  /\ Answer(Ev.id, Ev.err, PayOf(Ev))
   /\ (Ev.held /\ UseHeld) => HeldOK(cb[Ev.id].key)
 
-TrClose == IsEv("close-stdin") /\ Consume /\ CloseStdin
+TrClose == IsEv("close-stdin") /\ Consume /\ CloseStdin /\ UNCHANGED wr
 
 \* the process ended by itself with status 0: only after end-of-file on
 \* stdin, with every request answered and nothing left to write
-TrExit == IsEv("exit") /\ Consume /\ Ev.code = 0 /\ Exit
+TrExit == IsEv("exit") /\ Consume /\ Ev.code = 0 /\ Exit /\ UNCHANGED wr
 
 Silent ==
-  /\ l' = l
+  /\ l' = l /\ wr' = wr
   /\ Internal
   /\ (wbuf' # wbuf /\ wbuf'.t # "none") => PktIsNext(wbuf', req')
 
 TraceNext ==
-  \/ TraceReset \/ TrEnd
+  \/ TraceReset \/ TrEnd \/ TrWrite
   \/ TrSend \/ TrRecvResponse \/ TrRecvRequest \/ TrSendResponse \/ TrClose \/ TrExit
   \/ Silent
 
